@@ -42,6 +42,9 @@ def side(t):
     tf = tail_find(_CTX[0], t) if _CTX else None
     if tf is not None:
         return "l" if tf[1] == 1 else "r"
+    zf = zip_find_item(_CTX[0], t) if _CTX else None
+    if zf is not None:
+        return "l" if zf[2] == 1 else "r"
     for _ in range(6):
         # v.get(i)[.copied()] taken as Some: the element, like v[i]
         if isinstance(t, tuple) and t and t[0] == "field" and t[2] == 0 and isinstance(t[1], tuple) and t[1][0] == "downcast" and t[1][2] == "Some" \
@@ -158,6 +161,67 @@ def zip_item(t):
     if it != z[0]:
         return None
     return nx, t[2], srcs[t[2]]
+
+
+def zip_find_call(ctx, f):
+    """True if f is  lhs.version.iter().zip(rhs.version.iter()).find(|(l, r)| l != r)  (either order of the sides): the first pair of
+    the common prefix whose components differ"""
+    if not (is_call(f, "Iterator>::find", "iter::Iterator::find") and len(call_args(f)) == 2):
+        return None
+    it = strip_refs(call_args(f)[0])
+    while isinstance(it, tuple) and it and it[0] == "loc" and len(it) > 2:
+        it = strip_refs(it[2])
+    if not (is_call(it, "Iterator::zip") and len(call_args(it)) == 2):
+        return None
+    srcs = [_version_of(a) for a in call_args(it)[:2]]
+    if None in srcs or srcs[0] == srcs[1]:
+        return None
+    clo = strip_refs(call_args(f)[1])
+    if not (isinstance(clo, tuple) and clo and clo[0] == "agg" and clo[1] == "closure"):
+        return None
+    rets = [p.end[1] for p in ret_paths(ctx.paths(clo[2]) or [])]
+    if len(rets) != 1:
+        return None
+    r = rets[0]
+    if isinstance(r, tuple) and r and r[0] == "binop" and r[1] == "Ne":
+        a, b = deval(r[2]), deval(r[3])
+    elif eq_call(r) is not None and eq_call(r)[0]:
+        a, b = deval(eq_call(r)[1]), deval(eq_call(r)[2])
+    else:
+        return None
+
+    def comp(x):
+        # component k of the pair the closure is handed (by reference)
+        if isinstance(x, tuple) and len(x) > 2 and x[0] == "field" and x[2] in (0, 1) and deval(x[1]) == ("param", 2):
+            return x[2]
+        return None
+    if {comp(a), comp(b)} != {0, 1}:
+        return None
+    return srcs
+
+
+def zip_find_item(ctx, t):
+    """(find-call, k, param) if t is component k of the pair found by zip_find_call"""
+    t = strip_refs(t)
+    while isinstance(t, tuple) and t and t[0] == "deref":
+        t = strip_refs(t[1])
+    if not (isinstance(t, tuple) and t and t[0] == "field" and t[2] in (0, 1) and isinstance(t[1], tuple) and t[1][0] == "field" and t[1][2] == 0
+            and isinstance(t[1][1], tuple) and t[1][1][0] == "downcast" and t[1][1][2] == "Some"):
+        return None
+    f = strip_refs(t[1][1][1])
+    srcs = zip_find_call(ctx, f)
+    if srcs is None:
+        return None
+    return f, t[2], srcs[t[2]]
+
+
+def prefix_searches(ctx, p):
+    """the outcomes (found?) of the common-prefix searches zip(..).find(differ) on the path"""
+    out = []
+    for c in p.conds():
+        if c.term[0] == "discr" and zip_find_call(ctx, strip_refs(c.term[1])) is not None:
+            out.append(c.fact == ("eq", 1))
+    return out
 
 
 TAIL_FROM_OTHER = set()
@@ -401,17 +465,27 @@ def run(ctx):
                 br = [c for c in p.conds() if c.term[0] == "discr" and is_call(c.term[1], "::cmp")]
                 unequal_len = bool(br) and br[-1].fact in (("eq", 255), ("eq", 1))
                 # searches for a non-zero component in a tail (`.find(|x| x != 0)`): all came back empty, and if that is how the tails are examined, both were
-                finds = [c for c in p.conds() if c.term[0] == "discr" and is_call(strip_refs(c.term[1]), "Iterator>::find", "iter::Iterator::find")]
+                # the common prefix searched with zip(..).find(differ): nothing was found
+                for found_ in prefix_searches(ctx, p):
+                    ok5 = ok5 and not found_
+                    exhausted += 1
+                finds = [c for c in p.conds() if c.term[0] == "discr" and is_call(strip_refs(c.term[1]), "Iterator>::find", "iter::Iterator::find")
+                         and zip_find_call(ctx, strip_refs(c.term[1])) is None]
                 none = [tail_find_call(ctx, strip_refs(c.term[1])) for c in finds if c.fact == ("eq", 0) or (c.fact[0] == "ne" and 1 in c.fact[1])]
                 branchwise = bool(finds) and all(strip_refs(c.term[1]) in TAIL_FROM_OTHER for c in finds)
                 # common-prefix loop, plus the zero-padding loop (or the search of the longer side's tail) when the lengths differ
-                ok5 = ok5 and exhausted + (len(none) if branchwise else 0) >= (2 if unequal_len else 1)
+                ok5 = ok5 and exhausted + len(none) >= (2 if unequal_len else 1) and exhausted >= 1
                 if finds and branchwise:
                     # the tail is cut at the other side's length inside the length branch: exactly the longer side's tail was searched
                     ok5 = ok5 and len(none) == len(finds) and unequal_len and none == [3 if br[-1].fact == ("eq", 255) else 1] \
                         and vlen(call_args(br[-1].term[1])[0], 1) and vlen(call_args(br[-1].term[1])[1], 3)
                 elif finds:
-                    ok5 = ok5 and len(none) == len(finds) and set(none) == {1, 3}
+                    # every search on the path came back empty, and every tail that can be non-empty was searched: both, unless the path is
+                    # inside a branch of len(l).cmp(len(r)) that leaves one side (or both) without a tail
+                    needed = {1, 3}
+                    if br and vlen(call_args(br[-1].term[1])[0], 1) and vlen(call_args(br[-1].term[1])[1], 3) and br[-1].fact[0] == "eq":
+                        needed = {255: {3}, 1: {1}, 0: set()}.get(br[-1].fact[1], needed)
+                    ok5 = ok5 and len(none) == len(finds) and None not in none and set(none) >= needed
             ctx.check(ok5, "CMP-5", CMP, inst + "@" + ("tail" if bb == last_bb else "branch"), "revision compared last, after all components tied",
                       "the revision comparison is reachable before every component loop on its path was exhausted (or is inside a loop)", body.span_of(bb))
             continue
@@ -462,12 +536,18 @@ def run(ctx):
             if za is not None and zb is not None and za[0] == zb[0] and za[1] != zb[1]:
                 okrng = any(c.term == ("discr", za[0]) and c.fact == ("eq", 1) for c in p.conds())
                 rdesc = "the pairs of lhs.version zipped with rhs.version"
+            fa, fb = zip_find_item(ctx, a), zip_find_item(ctx, b)
+            if fa is not None and fb is not None and fa[0] == fb[0] and fa[1] != fb[1]:
+                # found by `l != r` on the pair's own components: the guard is the search predicate
+                okg = okrng = any(c.term == ("discr", fa[0]) and c.fact == ("eq", 1) for c in p.conds())
+                rdesc = "the first differing pair of lhs.version zipped with rhs.version"
             tf = tail_find(ctx, b if sa == "zero" else a) if (sa == "zero") != (sb == "zero") else None
             iter_tail = False
             if tf is not None:
                 found = any(c.term == ("discr", tf[0]) and c.fact == ("eq", 1) for c in p.conds())
                 nexts = [c for c in p.conds() if c.term[0] == "discr" and is_call(strip_refs(c.term[1]), "::next")]
-                prefix_done = bool(nexts) and all(c.fact == ("eq", 0) for c in nexts)
+                ps_ = prefix_searches(ctx, p)
+                prefix_done = bool(nexts or ps_) and all(c.fact == ("eq", 0) for c in nexts) and not any(ps_)
                 okg = found          # found by `x != 0`: the guard `x != 0` is the search predicate
                 okrng = prefix_done and tf[1] == (3 if sa == "zero" else 1)
                 rdesc = "first non-zero of version[min(len l, len r)..]"
